@@ -386,6 +386,7 @@ def expand(template_path, repo_src_dir, canary=False):
         kv = parse_kv(d)
         sections = {'SPEC': '', 'PROLOGUE': ''}
         loops, hints = {}, []
+        optional_loops = set()
         cur = None
         i += 1
         while i < len(tl):
@@ -399,6 +400,8 @@ def expand(template_path, repo_src_dir, canary=False):
                 elif d2.startswith('LOOP'):
                     cur = ('loop', int(d2.split()[1]))
                     loops[cur[1]] = ''
+                    if d2.startswith('LOOP?'):
+                        optional_loops.add(cur[1])
                 elif d2.startswith('HINT'):
                     hints.append([parse_hint_alts(d2[4:]), ''])
                     cur = ('hint', len(hints) - 1)
@@ -427,15 +430,29 @@ def expand(template_path, repo_src_dir, canary=False):
         if kv.get('as'):
             head = re.sub(r'\bfn\s+\w+', 'fn ' + kv['as'], head, count=1)
         rname = kv.get('ret', 'r')
-        sig = '    %s%s%s%s' % (vis, unsafe, head, params)
-        if ret:
-            sig += ' -> (%s: %s)' % (rname, ret)
         body = f.body
         body = re.sub(r'^\s*///.*\n', '', body, flags=re.M)
         body = rw.r3_from_mut(body)
         body = rw.r6_question(body)
         body = rw.r2_map(body)
+        for sub in [x for x in kv.get('subst', '').split(';;') if x]:
+            a, b = sub.split('=>')
+            a, b = a.replace('_', ' ') if False else a, b
+            if a in body or a in ret:
+                rw.note('R8', 'substitute %s => %s' % (a, b))
+            body = body.replace(a, b)
+            ret = ret.replace(a, b)
+        if kv.get('array_iter'):
+            def _ai(mt):
+                rw.note('R9', mt.group(0))
+                return 'array_iter(%s)' % mt.group(1)
+            body = re.sub(r'\b(\w+)\.iter\(\)', _ai, body)
+        nl = len(find_loops(body))
+        loops = {k: v for k, v in loops.items() if not (k in optional_loops and k > nl)}
         body = apply_insertions(body, loops, [(a, t) for a, t in hints], fname, gen.notes)
+        sig = '    %s%s%s%s' % (vis, unsafe, head, params)
+        if ret:
+            sig += ' -> (%s: %s)' % (rname, ret)
         start_line = len(gen.lines) + 1
         for a in kv.get('attrs', '').split(';'):
             if a:
